@@ -461,3 +461,77 @@ def fresh_literal_programs():
 
 
 FRESH_ARGS = [['5', '7'], ['200', '-1']]
+
+
+# ------------------------------------------------------ try-block histories
+def _defeat_funcs():
+    K = Var('k', INT)
+    d0 = Func('!d0', [('k', INT, False)], EMPTY, [_mark('d'), ExprStmt(Call('!truth_is_defeat', [Bin('==', K, _i(1))])), _mark('e')])
+    dv = Func('!dv', [('k', INT, False)], INT, [_mark('v'), ExprStmt(Call('!truth_is_defeat', [Bin('==', K, _i(1))])), Ret(Bin('+', K, _i(5)))])
+    loc = Var('loc', Arr(INT, False))
+    da = Func('!da', [('k', INT, False)], EMPTY, [Decl('loc', Arr(INT, False), ArrLit([K, Bin('+', K, _i(1)), _i(9)], INT, False)), VLA('pad', BYTE, Lit(INT, 3)),
+                                                   _mark('a'), ExprStmt(Call('!truth_is_defeat', [Bin('==', K, _i(1))])), W(Index(loc, Lit(INT, 1)))])
+    dp = Func('!dp', [('k', INT, False)], EMPTY, [_mark('q'), Preempt([_mark('P'), Ret(None)]), ExprStmt(Call('!truth_is_defeat', [Bin('==', K, _i(1))])), _mark('r')])
+    return d0, dv, da, dp
+
+
+def _source(kind, c, fs):
+    d0, dv, da, dp = fs
+    return {
+        'none': [],
+        'direct': [If(Bin('==', c, _i(1)), [ExprStmt(Call('!is_defeat', []))])],
+        'tid': [ExprStmt(Call('!truth_is_defeat', [Bin('==', c, _i(1))]))],
+        'call': [ExprStmt(Call(d0, [c]))],
+        'nested': [W(Call(dv, [c]))],
+        'arrays': [ExprStmt(Call(da, [c]))],
+        'preempting': [ExprStmt(Call(dp, [c]))],
+    }[kind]
+
+
+SOURCES = ('none', 'direct', 'tid', 'call', 'nested', 'arrays', 'preempting')
+
+
+def history_programs():
+    """(a) every ordered pair of try blocks (undo/stop x 7 ways in which defeat may arise) run one after the other and then
+    the first one again: whatever the first leaves behind (defeat target, saved frame, array stack) meets the second;
+    (b) one try block inside a loop of a you-function for every combination of the route by which the body and the handler
+    are left (fall through, break, continue, return).  v[0], v[1] decide at run time which bodies reach defeat."""
+    g = Var('g', INT)
+    fs = _defeat_funcs()
+
+    def try_stmt(kind, src, c, tagc):
+        t = Var('t' + tagc, Arr(INT, False))
+        body = [_mark(tagc), OpAssign(g, '+', _i(1)), Decl('t' + tagc, Arr(INT, False), ArrLit([g, c], INT, False)), W(Index(t, Lit(INT, 0)))] + \
+            _source(src, c, fs) + [_mark('.')]
+        return Try(body, kind, [_mark(kind[0]), W(g), OpAssign(g, '+', _i(10))])
+    combos = [(k, s) for k in ('undo', 'stop') for s in SOURCES]
+    for k1, s1 in combos:
+        for k2, s2 in combos:
+            main = Func('@is_you', [('v', Arr(INT, True), False)], EMPTY,
+                        [try_stmt(k1, s1, arg(0), 'A'), W(g), _mark(' '), try_stmt(k2, s2, arg(1), 'B'), W(g), _mark(' '),
+                         try_stmt(k1, s1, arg(0), 'C'), W(g), _mark(' '), try_stmt(k2, s2, arg(0), 'D'), W(g), _mark('\n')])
+            yield f'history/{k1}-{s1}/{k2}-{s2}', Program([Decl('g', INT, _i(0))], [main] + list(fs))
+    routes = ('fall', 'break', 'continue', 'return')
+
+    def leave(r):
+        return {'fall': [], 'break': [Break()], 'continue': [Continue()], 'return': [Ret(Bin('+', g, _i(100)))]}[r]
+    i = Var('i', INT)
+    for kind in ('undo', 'stop'):
+        for src in ('tid', 'call', 'arrays', 'nested'):
+            for rb in routes:
+                for rh in routes:
+                    c = Bin('==', Bin('%', Bin('+', i, arg(0)), _i(2)), _i(1))      # defeat on alternating iterations
+                    cexpr = Cast(c, INT)
+                    t = Var('tl', Arr(INT, False))
+                    body = [_mark('b'), OpAssign(g, '+', _i(1)), Decl('tl', Arr(INT, False), ArrLit([g, i], INT, False)), W(Index(t, Lit(INT, 1)))] + \
+                        _source(src, cexpr, fs) + [_mark('.')] + leave(rb)
+                    handler = [_mark(kind[0]), OpAssign(g, '+', _i(10))] + leave(rh)
+                    loop = For(Decl('i', INT, _i(0)), Bin('<', i, _i(4)), OpAssign(i, '+', _i(1)),
+                               [Decl('keep', Arr(INT, False), ArrLit([i, g], INT, False)), Try(body, kind, handler), _mark('m'), W(Index(Var('keep', Arr(INT, False)), Lit(INT, 0)))])
+                    w = Func('@w', [('v', Arr(INT, True), False)], INT, [loop, _mark('z'), Ret(g)])
+                    main = Func('@is_you', [('v', Arr(INT, True), False)], EMPTY,
+                                [W(Call(w, [ARG])), _mark(' '), W(g), _mark(' '), W(Call(w, [ARG])), _mark(' '), W(g), _mark('\n')])
+                    yield f'tryloop/{kind}/{src}/body-{rb}/handler-{rh}', Program([Decl('g', INT, _i(0))], [main, w] + list(fs))
+
+
+HISTORY_ARGS = [['0', '0'], ['1', '0'], ['0', '1'], ['1', '1']]
